@@ -7,13 +7,14 @@ MODULE = "GoNfsd.Props.C04"
 
 
 def run(ctx):
-    ok_go, ok_drv = seqlib.build_and_prove(ctx, MODULE)
+    ok_go, ok_drv = seqlib.build_and_prove(ctx, MODULE, extra_parts=["skeleton"])
+    seqlib.report_journal_objects(ctx)
     if ok_go:
         t = ctx.tier == "thorough"
         sd = ["-seed", str(ctx.seed)]
         R = fscklib.C04_CHECKS
         fscklib.run_images(ctx, ok_drv, "seq", ["seq"] + sd + (["-seqs", "24", "-ops", "400", "-big", "-fsck", "3"] if t else ["-seqs", "5", "-ops", "250", "-big", "-fsck", "5"]), R, True)
-        fscklib.run_images(ctx, ok_drv, "conc", ["conc"] + sd + (["-hists", "40", "-clients", "5", "-ops", "150"] if t else ["-hists", "8", "-clients", "4", "-ops", "100"]), R, True)
+        fscklib.run_images(ctx, ok_drv, "conc", ["conc"] + sd + (["-hists", "40", "-clients", "5", "-ops", "150"] if t else ["-hists", "8", "-clients", "6", "-ops", "100", "-yield", "40"]), R, True)
         fscklib.run_images(ctx, ok_drv, "crash-meta", ["crash"] + sd + ["-mix", "meta"] + (["-workloads", "12", "-ops", "60", "-images", "800"] if t else ["-workloads", "2", "-ops", "40", "-images", "150"]), R, True)
         fscklib.run_images(ctx, ok_drv, "crash-free", ["crash"] + sd + ["-mix", "free", "-disk", "40000", "-ops", "22"] + (["-workloads", "6", "-images", "600"] if t else ["-workloads", "1", "-images", "120"]), R, True)
         lines = fscklib.run_images(ctx, ok_drv, "reclaim", ["reclaim"] + sd + (["-hists", "9", "-rounds", "5"] if t else ["-hists", "3", "-rounds", "2"]), R, True)
